@@ -95,6 +95,14 @@ class _TextParser(HTMLParser):
 
     self.parent = self.parent.parent()
 
+  def parse_marked_section(self, i, report=1):
+    # a malformed marked section, e.g. `<![x[`, is text
+    try:
+      return super().parse_marked_section(i, report)
+    except AssertionError:
+      self.handle_data(self.rawdata[i:i + 3])
+      return i + 3
+
   def handle_data(self, data):
     lines = data.split("\n")
 
